@@ -314,9 +314,12 @@ def _run_once(case, with_rejects, log, d):
                 raised = e
             finally:
                 fqi.FastqIterator = RealIter
-            handle.close()
-            if rej is not None:
-                rej.close()
+            try:
+                handle.close()
+                if rej is not None:
+                    rej.close()
+            except Exception as e:
+                raised = raised or e
     finally:
         if saved is not None:
             hl.gzip, hl.time = saved
